@@ -276,6 +276,9 @@ type Opts struct {
 	// RealJWKS uses fosite's shipped DefaultJWKSFetcherStrategy (with its cache) over the stub HTTP transport instead of the
 	// cache-less stub strategy.
 	RealJWKS bool
+	// RetiredRevoker registers, in front of the provider's own revocation handler, a second shipped TokenRevocationHandler that
+	// serves a retired token family kept in a separate (empty) store: it knows none of the tokens of this world.
+	RetiredRevoker bool
 }
 
 type World struct {
@@ -353,6 +356,7 @@ func New(o Opts) *World {
 	if o.Mode.Hydrate {
 		// the SQL-like store: hydrates the session prototype and annotates its errors
 		o.Mode.WrapErrors = true
+		o.Mode.RowCount = true
 	}
 	w.Store = NewIStore(w.Mem, o.Mode)
 	specs := o.Clients
@@ -404,6 +408,10 @@ func New(o Opts) *World {
 		compose.OAuth2PKCEFactory,
 		compose.PushedAuthorizeHandlerFactory,
 	)
+	if o.RetiredRevoker {
+		retired := &oauth2.TokenRevocationHandler{TokenRevocationStorage: storage.NewMemoryStore(), AccessTokenStrategy: w.HMAC, RefreshTokenStrategy: w.HMAC}
+		cfg.RevocationHandlers = append(fosite.RevocationHandlers{retired}, cfg.RevocationHandlers...)
+	}
 	return w
 }
 
